@@ -37,6 +37,9 @@ type EngSpec struct {
 func applyConfig(e *twig.Engine, c string) {
 	name := c[2:]
 	switch c[:2] {
+	case "s:":
+		// strict variables (the option exists; what it does to undefined variables is the engine's)
+		e.SetStrictVars(true)
 	case "g:":
 		e.AddGlobal(name, "G"+name)
 	case "f:":
